@@ -38,6 +38,7 @@ import (
 
 	"go.uber.org/zap/zapcore"
 
+	"github.com/ozontech/seq-db/bytespool"
 	"github.com/ozontech/seq-db/consts"
 	"github.com/ozontech/seq-db/disk"
 	"github.com/ozontech/seq-db/frac"
@@ -68,6 +69,14 @@ func corpus(seed int64, n int) []doc {
 	for i := range docs {
 		g := i % nGroups
 		pad := strings.Repeat("x", r.Range(0, 60))
+		if big := os.Getenv("VERIF_DOC_PAD"); big != "" { // incompressible padding for the real-size case
+			k, _ := strconv.Atoi(big)
+			b := make([]byte, k)
+			for j := range b {
+				b[j] = "0123456789abcdefghijklmnopqrstuvwxyzABCDEFGHIJKLMNOPQRSTUVWXYZ+-"[r.U64()&63]
+			}
+			pad = string(b)
+		}
 		docs[i] = doc{
 			id:     seq.ID{MID: seq.MID(1_700_000_000_000 + uint64(i/3)), RID: seq.RID(r.U64()>>1 | 1)},
 			body:   []byte(fmt.Sprintf(`{"service":"%s","k8s_pod":"%s","message":"m%d %s"}`, svcName(seed, g), podName(seed, i), i, pad)),
@@ -593,6 +602,9 @@ type harness struct {
 	orReseal  *vh.Oracle
 	orSys     *vh.Oracle
 	chSys     *vh.Channel
+	chWriter  *vh.Channel
+	orOffsets *vh.Oracle
+	orBig     *vh.Oracle
 	tplDir    string // valid files of one fraction (docs, meta from the active fraction; sdocs, index from its sealed form)
 	tplBase   string
 }
@@ -829,6 +841,44 @@ func (h *harness) overlap(n int, seedA, seedB int64) {
 	}
 }
 
+// bigSeal: one real-size case - more than 32 MiB of compressed sorted docs, so that the 32 MiB buffer of the
+// bytespool.Writer under ._sdocs is flushed in the middle of a block - sealed through the real FracManager in a child,
+// then restarted and fetched completely.
+func (h *harness) bigSeal(n, pad int, seed int64) {
+	work, _ := os.MkdirTemp(h.work, "big")
+	defer os.RemoveAll(work)
+	os.Setenv("VERIF_DOC_PAD", fmt.Sprint(pad))
+	defer os.Unsetenv("VERIF_DOC_PAD")
+	exe, _ := os.Executable()
+	ctx, cancel := context.WithTimeout(context.Background(), 600*time.Second)
+	defer cancel()
+	cmd := exec.CommandContext(ctx, exe, "sealchild", work, fmt.Sprint(seed), fmt.Sprint(n), "0", "0", "0")
+	var out bytes.Buffer
+	cmd.Stdout = &out
+	cmd.Stderr = io.Discard
+	err := cmd.Run()
+	key := fmt.Sprintf("bigseal n=%d pad=%d seed=%d", n, pad, seed)
+	if !strings.Contains(out.String(), "SEALED") {
+		h.orBig.Error = fmt.Sprintf("%s: the seal did not finish: %v %s", key, err, out.String())
+		return
+	}
+	var sdocs int64
+	ents, _ := os.ReadDir(work)
+	for _, e := range ents {
+		if _, suf := suffixOf(e.Name()); suf == consts.SdocsFileSuffix {
+			if st, err := e.Info(); err == nil {
+				sdocs = st.Size()
+			}
+		}
+	}
+	res := runChild(work, seed, n, false, false)
+	h.orBig.Case(key, sdocs > 32<<20, fmt.Sprintf("sdocs>32MiB=%s", vh.B(sdocs > 32<<20)), "served="+res.served)
+	if res.served != "all" {
+		h.rep.Violate(vh.Violation{Site: "frac/active_sealer.go:writeSortedDocs", Class: "large-fraction-unfetchable-after-seal",
+			What: fmt.Sprintf("fraction with %d documents, .sdocs of %d bytes (writer buffer 32 MiB): after seal and restart it serves %q: %s", n, sdocs, res.served, res.detail), Replay: []string{key}})
+	}
+}
+
 // syncFault seals through the real FracManager while one seal output cannot be fsynced; the seal must fail without
 // giving that output its final name, and a restart must serve everything.
 func (h *harness) syncFault(skip bool, n int, seed int64, tmpSuffix string) {
@@ -1007,6 +1057,197 @@ func parseStrace(log, dir string) []string {
 		}
 	}
 	return ops
+}
+
+// ---------------------------------------------------------------- bytespool.Writer
+
+// scriptedWriter is the downstream io.Writer of the writer.bytes channel: the i-th call is answered by script[i]
+// (-1 = take everything; k >= 0 = take k bytes and fail; with short = true report the k bytes without an error).
+type scriptedWriter struct {
+	script []int
+	short  bool
+	calls  int
+	out    []byte
+	log    []string // what each call was answered, in the driver's notation
+}
+
+func (w *scriptedWriter) Write(p []byte) (int, error) {
+	a := -1
+	if w.calls < len(w.script) {
+		a = w.script[w.calls]
+	}
+	w.calls++
+	if a < 0 || (a >= len(p) && w.short) {
+		w.out = append(w.out, p...)
+		w.log = append(w.log, "k")
+		return len(p), nil
+	}
+	k := min(a, len(p))
+	w.out = append(w.out, p[:k]...)
+	w.log = append(w.log, fmt.Sprintf("e%d", k))
+	if w.short {
+		return k, nil
+	}
+	return k, errInjected
+}
+
+// writerCase drives the real bytespool.Writer (buffer capacity c) through the commands (n >= 0: Write of the next n
+// bytes of 0,1,2,.. mod 251; -1: Flush) and renders request and answer of the `bwriter` driver command.
+func writerCase(c int, cmds []int, script []int, short bool) (req, impl string) {
+	down := &scriptedWriter{script: script, short: short}
+	w := bytespool.AcquireWriterSize(down, 1)
+	bytespool.Release(w.Buf)
+	w.Buf = &bytespool.Buffer{B: make([]byte, 0, c)} // exactly this capacity (the pool rounds up)
+	var cs, rs, as []string
+	pos := 0
+	for _, n := range cmds {
+		if n < 0 {
+			cs = append(cs, "f")
+			rs = append(rs, vh.B(w.Flush() == nil))
+			continue
+		}
+		b := make([]byte, n)
+		for i := range b {
+			b[i] = byte((pos + i) % 251)
+		}
+		pos += n
+		got, err := w.Write(b)
+		cs = append(cs, fmt.Sprintf("w%d", n))
+		rs = append(rs, fmt.Sprintf("%d:%s", got, vh.B(err == nil)))
+	}
+	as = down.log // the answers actually given (a scripted failure beyond the last call never happened)
+	if len(as) == 0 {
+		as = []string{"-"}
+	}
+	return fmt.Sprintf("bwriter %d %s %s", c, strings.Join(cs, ","), strings.Join(as, ",")),
+		fmt.Sprintf("ok %s out=%s buf=%d", strings.Join(rs, ","), vh.Hex(down.out), len(w.Buf.B))
+}
+
+func (h *harness) writerChannel(rng *vh.RNG) {
+	add := func(c int, cmds, script []int, short bool) {
+		req, impl := writerCase(c, cmds, script, short)
+		fails := 0
+		for _, a := range script {
+			if a >= 0 {
+				fails++
+			}
+		}
+		h.chWriter.Add(req, impl, len(cmds) > 1, fmt.Sprintf("cap=%d", min(c, 9)), fmt.Sprintf("failures=%d", min(fails, 2)), "short="+vh.B(short))
+	}
+	// small scope: capacities 1..4, every sequence of up to 3 commands over lengths {0,1,c-1,c,c+1,2c+1} and Flush, ending
+	// in a Flush; downstream all ok, or failing its j-th call after 0 or 1 bytes
+	for c := 1; c <= 4; c++ {
+		lens := []int{-1, 0, 1, c - 1, c, c + 1, 2*c + 1}
+		var rec func(cur []int)
+		rec = func(cur []int) {
+			if len(cur) > 0 {
+				full := append(append([]int(nil), cur...), -1)
+				add(c, full, nil, false)
+				for j := 0; j < 3; j++ {
+					for _, k := range []int{0, 1} {
+						script := make([]int, j+1)
+						for i := range script {
+							script[i] = -1
+						}
+						script[j] = k
+						add(c, full, script, false)
+						if k == 1 && j == 0 {
+							add(c, full, script, true)
+						}
+					}
+				}
+			}
+			if len(cur) == 3 {
+				return
+			}
+			for _, l := range lens {
+				if l >= -1 {
+					rec(append(cur, l))
+				}
+			}
+		}
+		rec(nil)
+	}
+	// random beyond: capacities up to 64, up to 14 commands, lengths up to 3c, several failures
+	for i := 0; i < h.o.Pick(1500, 20000); i++ {
+		c := rng.Range(1, 64)
+		var cmds, script []int
+		for j := rng.Range(2, 14); j > 0; j-- {
+			switch {
+			case rng.Chance(1, 6):
+				cmds = append(cmds, -1)
+			case rng.Chance(1, 3):
+				cmds = append(cmds, rng.Range(max(0, c-2), c+2))
+			default:
+				cmds = append(cmds, rng.Range(0, 3*c))
+			}
+		}
+		cmds = append(cmds, -1)
+		for j := rng.Range(0, 8); j > 0; j-- {
+			if rng.Chance(1, 4) {
+				script = append(script, rng.Range(0, c))
+			} else {
+				script = append(script, -1)
+			}
+		}
+		add(c, cmds, script, rng.Chance(1, 5))
+	}
+}
+
+// sdocsSmallBuffer: the sorted-docs writer over a bytespool.Writer with a small buffer, so that document blocks straddle
+// the buffer boundary: the recorded block offsets must be the positions of the blocks in the output, and a failing
+// downstream write (every k) must surface as an error.
+func (h *harness) sdocsSmallBuffer(n int, seed int64) {
+	work, _ := os.MkdirTemp(h.work, "sb")
+	defer os.RemoveAll(work)
+	e := newActive(work, seed, n, false, false)
+	defer e.stop()
+	for _, bufSize := range []int{64, 257, 1000, 4096, 100000} {
+		out := &scriptedWriter{}
+		offsets, err, panicked := frac.VerifC08SortedDocsBlocks(e.active, sealParams, out, bufSize)
+		key := fmt.Sprintf("sdocsbuf n=%d seed=%d buf=%d", n, seed, bufSize)
+		if err != nil || panicked != "" {
+			h.orOffsets.Error = fmt.Sprintf("%s: fault-free run failed: %v %s", key, err, panicked)
+			return
+		}
+		bad := ""
+		pos := uint64(0)
+		for i, off := range offsets {
+			if off != pos || off+disk.DocBlockHeaderLen > uint64(len(out.out)) {
+				bad = fmt.Sprintf("block %d of %d is recorded at offset %d, it starts at byte %d of the output", i, len(offsets), off, pos)
+				break
+			}
+			pos += disk.DocBlock(out.out[off:]).FullLen()
+		}
+		if bad == "" && pos != uint64(len(out.out)) {
+			bad = fmt.Sprintf("the %d blocks cover %d bytes, the output has %d", len(offsets), pos, len(out.out))
+		}
+		h.orOffsets.Case(key, out.calls > 1, fmt.Sprintf("buf=%d", bufSize), "ok="+vh.B(bad == ""), fmt.Sprintf("downstream-writes>1=%s", vh.B(out.calls > 1)))
+		if bad != "" {
+			h.rep.Violate(vh.Violation{Site: "frac/active_sealer.go:flushBlock", Class: "block-offsets-differ-from-output",
+				What: fmt.Sprintf("sorted-docs writer with a %d-byte writer buffer (%d downstream writes): %s", bufSize, out.calls, bad), Replay: []string{key}})
+			continue
+		}
+		// a failure of any single downstream write must be reported
+		total := out.calls
+		step := max(1, total/h.o.Pick(12, 60))
+		for k := 0; k < total; k += step {
+			script := make([]int, k+1)
+			for i := range script {
+				script[i] = -1
+			}
+			script[k] = 0
+			fw := &scriptedWriter{script: script}
+			_, err, panicked := frac.VerifC08SortedDocsBlocks(e.active, sealParams, fw, bufSize)
+			fk := fmt.Sprintf("sdocsbuf n=%d seed=%d buf=%d fail=%d", n, seed, bufSize, k+1)
+			h.orSdocs.Case(fk, true, "fired=1", "err="+vh.B(err != nil), "panicked="+vh.B(panicked != ""))
+			if err == nil && panicked == "" {
+				h.rep.Violate(vh.Violation{Site: "bytespool/writer.go:Write", Class: "sdocs-write-error-swallowed",
+					What: fmt.Sprintf("sorted-docs writer with a %d-byte writer buffer: downstream write %d of %d failed, writeDocsInOrder and the release of the writer reported nothing", bufSize, k+1, total), Replay: []string{fk}})
+				break
+			}
+		}
+	}
 }
 
 type failingWriter struct {
@@ -1265,6 +1506,9 @@ func main() {
 		orFull:    vh.NewOracle("seal.diskfull", "the real rotate + proxyFrac.Seal in a child process whose RLIMIT_FSIZE is lowered before the seal, so that every write growing a file beyond the limit fails (EFBIG) - limits spread from 16 bytes to the size of the largest sealed file; then a restart must serve every document; non-trivial = the seal failed"),
 		orOverlap: vh.NewOracle("seal.overlap", "two fractions sealed with the real frac.Seal, the second completely inside the window in which the first has returned from writeSortedDocs but not yet written its first index block (forced at the seal.sec point); after Release of both and a restart every document of both must be searchable and fetchable"),
 		orReseal:  vh.NewOracle("crash.reseal", "from the directory as it is at every file-operation boundary of sealing and release: restart, rotate and seal the fraction again if it was replayed as active (over the temporary files and the .sdocs the interrupted seal left), search and fetch everything, restart once more and search and fetch again - every document must be served both times and no process may die; non-trivial = a point strictly inside the seal"),
+		chWriter:  vh.NewChannel("writer.bytes", "the real bytespool.Writer (buffer capacity set exactly) over a scripted downstream io.Writer (each call: everything taken / error after k bytes / short write of k bytes) vs SV.BufWriter.exec: result of every Write (n, error) and Flush, the bytes delivered downstream, the buffer fill; exhaustive for capacities 1..4 over all sequences of up to 3 commands with lengths {0,1,c-1,c,c+1,2c+1} and one downstream failure in each of the first 3 calls, random beyond (capacity <= 64, <= 14 commands, several failures); non-trivial = more than one command"),
+		orOffsets: vh.NewOracle("sdocs.offsets", "the sorted-docs writer (real docBlocksWriter + bytespool.Writer) with writer buffers of 64 B .. 100 kB, so that blocks straddle the buffer boundary: every recorded block offset is the byte position at which that block starts in the output and the blocks cover the output exactly; non-trivial = more than one downstream write"),
+		orBig:     vh.NewOracle("seal.big", "a fraction whose compressed sorted docs exceed the 32 MiB writer buffer (incompressible 4 KiB documents), sealed through the real FracManager in a child, restarted, every document searched and fetched; non-trivial = .sdocs larger than 32 MiB"),
 		orSync:    vh.NewOracle("seal.syncfault", "the real rotate + proxyFrac.Seal in a child process in which one seal output (._index, ._sdocs) cannot be fsynced (pre-created as a symlink to /dev/null: writes succeed, fsync returns EINVAL): the seal must fail, the output must not get its final name, and a restart must serve every document"),
 		orSys:     vh.NewOracle("seal.syscalls.order", "durable before visible on the system calls of a real seal (child under strace, independent of the hook points): every rename of a temporary seal output to its final name is directly preceded - as far as that file is concerned - by its fsync"),
 		chSys:     vh.NewChannel("seal.syscalls", "the open(O_CREAT|O_TRUNC)/write/fsync/rename/unlink system calls on the sealed fraction's files and the fsync of the data directory, read off an strace of a child that rotates and seals through FracManager, vs SV.SealOps.sealTrace"),
@@ -1286,6 +1530,12 @@ func main() {
 				h.faultRestart(faultCase{kv["skip"] == "1", kv["keep"] == "1", atoi("n"), seed, atoi("k"), kv["persistent"] == "1"})
 			case strings.HasPrefix(l, "crash "), strings.HasPrefix(l, "reseal "):
 				h.crashSweep(kv["skip"] == "1", kv["keep"] == "1", atoi("n"), seed, rng, false)
+			case strings.HasPrefix(l, "bigseal "):
+				h.bigSeal(atoi("n"), atoi("pad"), seed)
+			case strings.HasPrefix(l, "sdocsbuf "):
+				h.sdocsSmallBuffer(atoi("n"), seed)
+			case strings.HasPrefix(l, "bwriter "):
+				h.chWriter.Add(l, "replay", true)
 			case strings.HasPrefix(l, "syncfault "):
 				h.syncFault(kv["skip"] == "1", atoi("n"), seed, kv["suffix"])
 			case strings.HasPrefix(l, "syscalls "):
@@ -1327,6 +1577,13 @@ func main() {
 				h.overlap(o.Pick(300, 1200)+97*i, seed+20+int64(2*i), seed+21+int64(2*i))
 			}
 		}
+		if only("writer") {
+			h.writerChannel(rng)
+			h.sdocsSmallBuffer(o.Pick(400, 3000), seed+60)
+		}
+		if only("big") {
+			h.bigSeal(14000, 4096, seed+70)
+		}
 		if only("syncfault") {
 			h.syncFault(false, o.Pick(300, 900), seed+30, consts.IndexTmpFileSuffix)
 			h.syncFault(false, o.Pick(300, 900), seed+31, consts.SdocsTmpFileSuffix)
@@ -1351,7 +1608,7 @@ func main() {
 			h.faultSweep(true, false, consts.LIDBlockCap+o.Pick(4500, 70000), seed+8, true)
 		}
 	}
-	for _, c := range []*vh.Channel{h.chLoad, h.chTrace, h.chCrash, h.chFault, h.chSys} {
+	for _, c := range []*vh.Channel{h.chLoad, h.chTrace, h.chCrash, h.chFault, h.chSys, h.chWriter} {
 		rep.AddChannel(c, o.Driver)
 	}
 	rep.AddOracle(h.orCrash)
@@ -1360,6 +1617,8 @@ func main() {
 	rep.AddOracle(h.orOverlap)
 	rep.AddOracle(h.orSync)
 	rep.AddOracle(h.orReseal)
+	rep.AddOracle(h.orOffsets)
+	rep.AddOracle(h.orBig)
 	rep.AddOracle(h.orSys)
 	rep.AddOracle(h.orSdocs)
 	sort.SliceStable(rep.Violations, func(i, j int) bool { return rep.Violations[i].Site < rep.Violations[j].Site })
